@@ -82,6 +82,29 @@
                     Ok(Err(_)) => {}
                     Err(_) => { if failures.len() < 30 { failures.push(format!("C10: {:?} panics on a reused tokenizer/list", t)); } reused = StatefulTokenizer::new(&jd, Mode::C); reused_list = MorphemeList::empty(&jd); }
                 }
+                // mode and field-request history: a tokenizer that was switched to mode A / B and back (with and without an explicit field
+                // request in between) against the fresh mode C analysis - boundaries, fields and the stored split units
+                for hist in 0..3 {
+                    let r = std::panic::catch_unwind(std::panic::AssertUnwindSafe(|| {
+                        let mut h = StatefulTokenizer::new(&jd, Mode::C);
+                        match hist { 0 => { h.set_mode(Mode::A); h.set_mode(Mode::C); } 1 => { h.set_mode(Mode::B); h.set_subset(InfoSubset::all()); h.set_mode(Mode::A); h.set_mode(Mode::C); } _ => { h.set_subset(InfoSubset::all()); h.set_mode(Mode::A); h.set_mode(Mode::B); h.set_mode(Mode::C); } }
+                        let mut f = StatefulTokenizer::new(&jd, Mode::C);
+                        let mut out: Vec<Vec<(Vec<Tok>, Vec<(Vec<u32>, Vec<u32>)>)>> = Vec::new();
+                        for tk in [&mut h, &mut f] {
+                            tk.reset().push_str(t);
+                            if tk.do_tokenize().is_err() { return None; }
+                            let mut ms = MorphemeList::empty(&jd); ms.collect_results(tk).ok()?;
+                            let units = ms.iter().map(|m| { let i = m.get_word_info(); (i.a_unit_split().iter().map(|w| w.as_raw()).collect::<Vec<_>>(), i.b_unit_split().iter().map(|w| w.as_raw()).collect::<Vec<_>>()) }).collect::<Vec<_>>();
+                            out.push(vec![(snapshot(&ms), units)]);
+                        }
+                        Some(out)
+                    }));
+                    match r {
+                        Ok(Some(o)) => if o[0] != o[1] && failures.len() < 30 { failures.push(format!("C10: {:?} after the mode / field-request history {} differs from a fresh mode C tokenizer: {:?} vs {:?}", t, hist, o[0], o[1])); },
+                        Ok(None) => {}
+                        Err(_) => if failures.len() < 30 { failures.push(format!("C10: {:?} after the mode / field-request history {} panics", t, hist)); },
+                    }
+                }
                 // on-demand split of every morpheme into a result list with a history (last filled under a narrower field request)
                 // against the split into a fresh list
                 let r = std::panic::catch_unwind(std::panic::AssertUnwindSafe(|| -> Option<String> {
@@ -273,7 +296,7 @@
     /// Prefix lookup at offset 0 of "ゐゐ" + own key material must report the entries of EVERY layer with its dictionary number.
     #[test]
     fn verif_oracle_lookup_many_layers() {
-        if !want("C04") { return; }
+        if !want("C04") && !want("C12") { return; }
         let mut cfgb = ConfigTestSupport::new();
         let mut dic = DictBuilder::new_system();
         dic.read_conn(super::super::MATRIX_10_10).unwrap();
@@ -299,6 +322,23 @@
             want_ids.push(((k + 1) as u8, 1, 9));
             want_ids.sort();
             if got != want_ids && failures.len() < 10 { failures.push(format!("15 layered dictionaries, lookup({:?}, 0) = (dictionary, word, end) {:?}, expected {:?}", text, got, want_ids)); }
+        }
+        // C12: every morpheme reports the number of the dictionary that supplied it (1..=14), system words 0, unknown words -1
+        {
+            let text: String = (0..14usize).map(|k| format!("ゐゐ{}京都", marks[k])).collect::<Vec<_>>().join("") + "ゑ";
+            let r = std::panic::catch_unwind(std::panic::AssertUnwindSafe(|| {
+                let mut tok = StatefulTokenizer::new(&jd, Mode::C);
+                tok.reset().push_str(&text);
+                tok.do_tokenize().map(|_| { let mut ms = MorphemeList::empty(&jd); ms.collect_results(&mut tok).unwrap(); ms.iter().map(|m| (m.surface().to_string(), m.dictionary_id(), m.is_oov())).collect::<Vec<_>>() })
+            }));
+            let mut want_ids: Vec<(String, i32, bool)> = Vec::new();
+            for k in 0..14usize { want_ids.push((format!("ゐゐ{}", marks[k]), k as i32 + 1, false)); want_ids.push(("京都".to_string(), 0, false)); }
+            want_ids.push(("ゑ".to_string(), -1, true));
+            match r {
+                Ok(Ok(got)) => if got != want_ids && failures.len() < 10 { failures.push(format!("15 layered dictionaries: (surface, dictionary, oov) of {:?} = {:?}, expected {:?}", text, got, want_ids)); },
+                Ok(Err(e)) => failures.push(format!("15 layered dictionaries: analysis of {:?} fails: {:?}", text, e)),
+                Err(_) => failures.push(format!("15 layered dictionaries: analysis of {:?} panics", text)),
+            }
         }
         println!("verif_oracle_lookup_many_layers: 14 texts, {} failures", failures.len());
         for f in failures.iter().take(5) { println!("FAILING INPUT: {}", f); }
@@ -430,6 +470,9 @@
         lex.push_str(&format!("えお,8,8,-2000,えお,{},えお,えお,*,C,3/4,*,*,*\n", pos));
         lex.push_str(&format!("あいうえお,8,8,-9000,あいうえお,{},あいうえお,あいうえお,*,C,0/1/2/3/4,7/8,*,*\n", pos));
         lex.push_str("五,9,9,2478,五,名詞,数詞,*,*,*,*,ゴ,五,*,A,*,*,*,*\n");
+        // rows 11..13: a word reached through an EXPANDING normalisation (㍿ -> 株式会社: one original character, two units)
+        for (k, c) in [("株式", 3000), ("会社", 3000)] { lex.push_str(&format!("{},8,8,{},{},{},{},{},*,A,*,*,*,*\n", k, c, k, pos, k, k)); }
+        lex.push_str(&format!("株式会社,8,8,-2000,株式会社,{},株式会社,株式会社,*,C,11/12,*,*,*\n", pos));
         let mut cfgb = ConfigTestSupport::new();
         let mut dic = DictBuilder::new_system();
         dic.read_conn(super::super::MATRIX_10_10).unwrap();
@@ -442,10 +485,11 @@
                 ("あいう", Mode::A) => Some(vec!["あ", "い", "う"]), ("あいう", Mode::B) => Some(vec!["あい", "う"]),
                 ("えお", Mode::A) => Some(vec!["え", "お"]),
                 ("あいうえお", Mode::A) => Some(vec!["あ", "い", "う", "え", "お"]), ("あいうえお", Mode::B) => Some(vec!["あいう", "えお"]),
+                ("㍿", Mode::A) => Some(vec!["㍿", ""]),       // both units lie inside the one original character: the first maps to it, the second is empty
                 _ => None,
             }
         };
-        let pieces = ["あいう", "えお", "の", "あいうえお", "あ"];
+        let pieces = ["あいう", "えお", "の", "あいうえお", "あ", "㍿"];
         let mut texts: Vec<String> = Vec::new();
         let mut frontier = vec![String::new()];
         for _ in 0..4 {
@@ -477,6 +521,23 @@
                 let got3: Vec<(usize, usize, String)> = got.iter().map(|k| (k.0, k.1, k.2.clone())).collect();
                 if got3 != want && failures.len() < 20 { failures.push(format!("C09: {:?} in mode {:?}: tokens {:?}, the mode C tokens {:?} with their declared units give {:?}", t, mode, got3, c.iter().map(|k| k.2.clone()).collect::<Vec<_>>(), want)); }
                 for k in unchanged.iter() { if !got.contains(k) && failures.len() < 20 { failures.push(format!("C09: {:?} in mode {:?}: the token {:?} declares no units but is not reported unchanged", t, mode, k)); } }
+                // the split API: every mode C morpheme split on demand - the pieces, in order, are the direct analysis in that mode, and
+                // split_into reports `true` exactly for the words that declare units in that mode
+                let api = std::panic::catch_unwind(std::panic::AssertUnwindSafe(|| -> Result<Vec<(usize, usize, String, u32)>, String> {
+                    let mut tok = StatefulTokenizer::new(&jd, Mode::C);
+                    tok.reset().push_str(t);
+                    tok.do_tokenize().map_err(|e| format!("{:?}", e))?;
+                    let mut ms = MorphemeList::empty(&jd); ms.collect_results(&mut tok).map_err(|e| format!("{:?}", e))?;
+                    let mut all = Vec::new();
+                    for m in ms.iter() {
+                        let mut out = MorphemeList::empty(&jd);
+                        let did = m.split_into(mode, &mut out).map_err(|e| format!("{:?}", e))?;
+                        if did != units(&m.surface(), mode).is_some() { return Err(format!("split_into({:?}) of {:?} reports {}", mode, &*m.surface(), did)); }
+                        if did { for x in out.iter() { all.push((x.begin(), x.end(), x.surface().to_string(), x.word_id().as_raw())); } } else { all.push((m.begin(), m.end(), m.surface().to_string(), m.word_id().as_raw())); }
+                    }
+                    Ok(all)
+                })).unwrap_or_else(|_| Err("panic".to_string()));
+                match api { Ok(a) => if a != got && failures.len() < 20 { failures.push(format!("C09: {:?}: splitting the mode C morphemes on demand in mode {:?} gives {:?}, the direct analysis {:?}", t, mode, a, got)); }, Err(e) => if failures.len() < 20 { failures.push(format!("C09: {:?}: on-demand split in mode {:?}: {}", t, mode, e)); } }
             }
         }
         println!("verif_oracle_multi_unit_splits: {} texts, {} failures", texts.len(), failures.len());
